@@ -1,7 +1,8 @@
 SPECIFICATION TraceSpec
 CONSTANTS
   Nodes = {"n1", "n2"}
-  Focus = FALSE
+  ScanFirst = "n1"
+  Focus = "no"
   MaxOps = 0
 POSTCONDITION TraceAccepted
 CHECK_DEADLOCK FALSE
